@@ -39,6 +39,7 @@ func verifyFunc(p *Program, db *SpecDB, key string, useGaps bool) (res *FuncResu
 	loopMods := map[string]map[string]*modInfo{}
 	for iter := 0; iter < 12; iter++ {
 		c := newCtx(p, db, key, loopMods)
+		c.tolerant = true // code outside the supported subset must be unreachable (own obligation), e.g. strategies excluded by the precondition
 		err := c.runTop(fn, spec, useGaps)
 		if c.restart && err == nil {
 			continue
@@ -106,6 +107,9 @@ func (c *Ctx) runTop(fn *ssa.Function, spec *FuncSpec, useGaps bool) (err error)
 		switch cl.Kind {
 		case "requires":
 			c.assume(c.evalBool(env, cl.E), "requires")
+		case "assume":
+			c.assume(c.evalBool(env, cl.E), "definitional assumption")
+			c.note("definitional assumption in " + c.fn + ": " + cl.Text)
 		case "known":
 			if useGaps {
 				c.assume(c.evalBool(env, cl.E), "known gap "+cl.Gap)
